@@ -313,10 +313,12 @@ EXTRA = {
     "C01": " Reads may coalesce everything that arrives within 2 ms and duplicates may share one read; payloads reach 186 "
            "bytes (the reference NCP endpoint takes 220-byte frames); a host-requested reset in mid-session - also of a "
            "link the host considers failed - must not hand old-session frames up a second time (only duplicates are "
-           "judged there: across a reset the two ends are briefly in different sessions).",
+           "judged there: across a reset the two ends are briefly in different sessions)."
+           ' One direction of the line also goes dark until the host has used up its attempts (every acknowledgement lost; every host frame lost or corrupted) while the NCP is alive; on the line working again the NCP goes on sending, and whatever it sees acknowledged by the host - which considers the link failed - must still have been handed up exactly once. The whole stack is also run on the faulty line (rtmon/fullstack.py: real ControllerApplication + EZSP + Gateway + AshProtocol created through ControllerApplication.connect(), against the independent NCP-side ASH endpoint and the stateful NCP model; unicasts awaiting confirmations, incoming messages and keep-alives under a seeded fault rate, every protocol version): the EZSP frames handed up on either side must be an in-order duplicate-free subsequence of what the other side submitted, complete on a link that never failed and ended clean.',
     "C02": " Macro symbols include ERROR / RSTACK code 0x00 and data fields of exactly 256 and 257 bytes; mutated streams "
            "use payloads up to 300 bytes and codes 0x00 / 0xFF."
-           " Over-long flag-free runs are also ended by CANCEL and by SUBSTITUTE (not only by FLAG) and followed by a valid frame, which must be delivered.",
+           " Over-long flag-free runs are also ended by CANCEL and by SUBSTITUTE (not only by FLAG) and followed by a valid frame, which must be delivered."
+           ' For a well-formed DATA frame that is not the next expected one the reference fixes the number of the answer, not its kind (ACK or NAK).',
     "C03": " A fifth payload pattern makes the randomised data field walk through every ordered pair of reserved / "
            "reserved^0x20 bytes; every DATA frame is also fed to the running receiver as the reference's wire image "
            "(decode direction end to end); the stuffing helpers are compared with the reference on all 2-byte strings "
@@ -325,11 +327,13 @@ EXTRA = {
     "C04": " Several frames are also delivered in ONE read (all pairs from every state, seeded longer reads): one answer "
            "per DATA frame, in order; the rule is also checked after the host gave up on a send of its own (budget "
            "exhausted by timeouts or NAKs): an ERROR frame still reports its code, an RSTACK still restarts numbering."
-           " The rule is also checked after the host itself called send_reset() (once, twice; in mid-walk) and the RSTACK has not arrived yet: DATA, ERROR and the rest are still treated by the rule.",
+           " The rule is also checked after the host itself called send_reset() (once, twice; in mid-walk) and the RSTACK has not arrived yet: DATA, ERROR and the rest are still treated by the rule."
+           ' The kind of the answer (ACK / NAK) is demanded only where the property fixes it - an ACK for a frame that is accepted; a frame that is not accepted must draw exactly one ACK or NAK carrying the next expected number.',
     "C05": " After a failure the host's own RST is written and another send is issued before the RSTACK arrives: still "
            "no DATA frame may be written; callers are cancelled while their frame is in flight (the frame stays the "
            "link's business: window and budget rules continue to apply); an ERROR frame arriving after the host gave up "
-           "on its own is reported with its code.",
+           "on its own is reported with its code."
+           ' NAK reactions include NAKs that ask for another frame than the outstanding one (one behind, three ahead): the repeat must follow at once and keep the frame number the send started with.',
     "C06": " The seeded part also uses the route / extended-timeout set-up commands (packet-send class) and ordinary "
            "commands whose frame ID means something else in another protocol version; the simulated NCP sets the "
            "callbackPending / overflow frame-control bits on responses.",
@@ -354,7 +358,8 @@ EXTRA = {
            "then on; every post-registration crash point is repeated after a history in which the NCP already failed "
            "once before any application was attached; the NCP takes 4 ms to execute a command on half of the cases; the "
            "caller of the in-flight command is cancelled in the very loop iteration in which the failure is processed; "
-           "both transport behaviours for an exception escaping the receive callback alternate.",
+           "both transport behaviours for an exception escaping the receive callback alternate."
+           ' Reset requests are attributed to a deliberate close only if they follow it; a silent NCP counts as observable only for a DATA frame it had not acknowledged before it fell silent (both independent of how the command / link timeouts are tuned).',
     "C11": " One or two further reset requests are made on the same gateway after the first ended by completion, "
            "timeout, failure code or a failing RST write (write error, port closing); an NCP DATA frame - new, or a "
            "retransmission of one the host already took - may arrive between the RST and the RSTACK; a host DATA frame "
@@ -364,12 +369,14 @@ EXTRA = {
            " The connection is also lost (error, EOF, clean close) while a host DATA frame is unacknowledged and another is queued.",
     "C12": " Refusals and failed confirmations are repeated with every other status code of the reply's status family; "
            "confirmations of every outgoing-message type carrying the request's tag but another destination / table "
-           "index must not complete it; the application is disconnected while accepted unicasts await confirmation.",
+           "index must not complete it; the application is disconnected while accepted unicasts await confirmation."
+           " Request bookkeeping is found by its (destination, tag) key in whatever container the application object holds it (seen while in flight, gone at quiescence); the number of enqueue attempts follows the tree's RETRY_DELAYS. The whole stack is also run on the faulty line (rtmon/fullstack.py: real ControllerApplication + EZSP + Gateway + AshProtocol created through ControllerApplication.connect(), against the independent NCP-side ASH endpoint and the stateful NCP model; unicasts awaiting confirmations, incoming messages and keep-alives under a seeded fault rate, every protocol version): a unicast may return only if its own acceptance and its own success confirmation had been delivered to the host by then, may raise a delivery error only after a refusal / failed confirmation / busy answers through the last attempt, and leaves nothing behind.",
     "C13": " Mixed shards keep applications of several protocol versions alive in one process; the same application "
            "object is reconnected to NCPs of other versions across the v14 boundary; the node's own network address is "
            "changed mid-run; the network information is re-read while unicasts keep arriving; trust-centre join "
            "callbacks also come in bursts of two or three, and events are judged after the loop had time."
-           " Join and leave callbacks also name devices the application already has in its device table, under the same or another network address.",
+           " Join and leave callbacks also name devices the application already has in its device table, under the same or another network address."
+           " The whole stack is also run on the faulty line (rtmon/fullstack.py: real ControllerApplication + EZSP + Gateway + AshProtocol created through ControllerApplication.connect(), against the independent NCP-side ASH endpoint and the stateful NCP model; unicasts awaiting confirmations, incoming messages and keep-alives under a seeded fault rate, every protocol version): the packets handed to zigpy must be exactly the incoming-message callbacks the host's EZSP layer received - once each, in order, field for field - whatever ASH retransmitted or the line duplicated.",
     "C14": " A link key that is not the last one may be refused by the NCP (the others must still make the round trip); "
            "frame counter 0 is written over an NCP that holds a non-zero counter from an earlier network."
            " Every third NCP sees two or three restores in a row, the later ones often for the (restored) address it runs with at that moment.",
